@@ -39,7 +39,7 @@ META = {
 
 T_ = t.TypeVar('T_')
 PROBES: t.List[t.Any] = [[1, 'a', 2.0], ['a', 2.0, 1], ['a'], {'a': 1.0}, {'x': 1}, {'x': 'a'}, [1, 'a'], {'v': 1}, {'v': 'a'}, [1],
-                         {'inner': {'x': 1}, 'n': 1}, 7, 0, -0.0, 0.0, 1, ['1.5'], [2.5]]
+                         {'inner': {'x': 1}, 'n': 1}, 7, 0, -0.0, 0.0, 1, ['1.5'], [2.5], {'myField': 1}]
 
 _FIX: t.Dict[str, t.Any] = {}
 
@@ -81,6 +81,8 @@ def fixtures(pane):
     Inner = type('Inner', (pane.PaneBase,), {'__annotations__': {'x': int}, '__module__': 'mc.generated'}, custom={int: times3})
     Outer = type('Outer', (pane.PaneBase,), {'__annotations__': {'inner': Inner, 'n': int}, '__module__': 'mc.generated'}, custom=h10)
     LONG = t.List[int]
+    Ren = type('Ren', (pane.PaneBase,), {'__annotations__': {'my_field': int}, '__module__': 'mc.generated'}, rename='camel')
+    _FIX.update(Ren=Ren)
     import decimal
     _FIX.update(ULISTS=grammar.pin(t.Union[t.List[int], t.List[decimal.Decimal]]), LUNION=grammar.pin(t.List[t.Union[int, float]]))
     _FIX.update(G=G, Inner=Inner, Outer=Outer, LONG=LONG, h10=h10, h_never=h_never, times3=times3, times10=times10)
@@ -118,8 +120,10 @@ KINDS: t.Dict[str, t.Callable[[t.Any], t.Any]] = {
     # two members that hold the same Python class but serialise it differently / a union below a list
     'union_lists': lambda pane: fixtures(pane)['ULISTS'],
     'list_union': lambda pane: fixtures(pane)['LUNION'],
+    # a class whose input names are derived from a class-level rename style
+    'ren_dc': lambda pane: fixtures(pane)['Ren'],
 }
-LONG_LIVED = ('long_list', 'inner_dc', 'outer_dc', 'union_lists', 'list_union', 'float_t', 'complex_t')
+LONG_LIVED = ('long_list', 'inner_dc', 'outer_dc', 'union_lists', 'list_union', 'float_t', 'complex_t', 'ren_dc')
 KIND_NAMES = list(KINDS)
 HFORMS = ['plain', 'map', 'callable', 'seq', 'smap_a', 'smap_b']     # smap_*: ONE shared dict object whose content is changed between calls
 # alphabets per tier: (kinds that may be BUILT, handler forms at inner levels); the last level always tries all four handler forms
@@ -624,6 +628,37 @@ def run_scenario(pane, sc, bound, res, only_prefix=None):
 VALSEQ_KINDS = ['union_lists', 'list_union', 'float_t', 'complex_t', 'inner_dc', 'long_list']
 
 
+HSEQ_KINDS = ['inner_dc', 'outer_dc', 'ren_dc']
+
+
+def run_hseq(pane, res, kind, table, depth):
+    want = {tuple(k)[1]: tuple(tuple(x) for x in v) for k, v in table}
+    fixtures(pane)
+    ty = KINDS[kind](pane)
+    n = 0
+    for length in range(1, depth + 1):
+        for seq in itertools.product(HFORMS, repeat=length):
+            reset(pane)
+            hist = []
+            for hf in seq:
+                got = tuple(tuple(x) for x in outcome_vector(pane, ty, hf))
+                hist.append(hf)
+                n += 1
+                if got != want[hf]:
+                    diff = next((i for i, (g, w) in enumerate(zip(got, want[hf])) if g != w), -1)
+                    what = f"probe {PROBES[diff]!r}" if 0 <= diff < len(PROBES) else 'expected()'
+                    core.add_violation(res, {'kind': 'handler_history_dependent_result', 'type': kind},
+                                       f"{kind}: converting with handler forms {hist[:-1]} and then {hf!r}: {what} gives {got[diff]!r}; a pristine "
+                                       f"interpreter gives {want[hf][diff]!r}", {'part': 'hseq', 'kind': kind, 'seq': list(seq), 'at': len(hist)}, len(hist))
+                    break
+    res['states'] += n
+    res['transitions'] += n * len(PROBES)
+    res['validated'] += n
+    res['evals'] += n
+    res['nontrivial'].add(f"hseq|{kind}")
+    res['outcomes']['handler_form_sequences'] += n
+
+
 def run_valseq(pane, res, kind, table, depth):
     """Every ordered sequence of <= depth probes (those the type accepts, plus two it refuses) is pushed through the memoised
     converter of one long-lived type, from_data then into_data at each step; each step must give what a pristine interpreter
@@ -663,6 +698,10 @@ def plan(tier, seed):
     # value sequences: all ordered sequences of <= 3 probes through ONE memoised converter (both directions per step)
     for k in VALSEQ_KINDS:
         shards.append({'part': 'valseq', 'kind': k, 'table': [e for e in table if e[0][0] == k and e[0][1] == 'plain']})
+    # handler-form sequences: all sequences of <= 3 handler forms for ONE long-lived dataclass (its converter is built once per
+    # handler set; what one of them consumed or cached must not be missing for the next)
+    for k in HSEQ_KINDS:
+        shards.append({'part': 'hseq', 'kind': k, 'table': [e for e in table if e[0][0] == k]})
     scs = scenarios()
     # the expensive three-thread and make_converter scenarios first, one scenario per shard
     order = sorted(range(len(scs)), key=lambda i: (scs[i]['kind'] == 'keycache', scs[i].get('shape') != [3, 1]))
@@ -680,6 +719,9 @@ def run_shard(shard, tier):
         return res
     if shard['part'] == 'valseq':
         run_valseq(pane, res, shard['kind'], shard['table'], 3 if tier == 'quick' else 4)
+        return res
+    if shard['part'] == 'hseq':
+        run_hseq(pane, res, shard['kind'], shard['table'], 3)
         return res
     scs = scenarios()
     for i in range(shard['from'], shard['to']):
@@ -714,7 +756,7 @@ def replay(cell):
         if st.problem:
             return [{'sig': {'kind': 'history_dependent_result'}, 'msg': st.problem, 'cell': cell, 'cost': 0}]
         return []
-    if cell['part'] == 'valseq':
+    if cell['part'] in ('valseq', 'hseq'):
         return []          # (history-dependent by construction: confirmed by re-running the originating shard, see core.run_replay)
     sc = scenarios()[cell['scenario']]
     v = run_scenario(pane, sc, cell['bound'], res, only_prefix=cell['choices'])
